@@ -59,6 +59,17 @@ def offOf (cap : Nat) (s : Bytes) : Nat := min s.length cap
 theorem bufOf_nil (cap : Nat) : bufOf cap [] = List.replicate cap 0 := by
   simp [bufOf]
 
+theorem bufOf_take (cap : Nat) (s : Bytes) : bufOf cap (s.take cap) = bufOf cap s := by
+  simp only [bufOf, List.take_take, Nat.min_self, List.length_take]
+  congr 2; omega
+
+theorem offOf_take (cap : Nat) (s : Bytes) : offOf cap (s.take cap) = offOf cap s := by
+  simp only [offOf, List.length_take]; omega
+
+theorem bufOf_of_length_le (cap : Nat) (s : Bytes) (h : s.length ≤ cap) :
+    bufOf cap s = s ++ List.replicate (cap - s.length) 0 := by
+  simp only [bufOf, List.take_of_length_le h]
+
 theorem offOf_nil (cap : Nat) : offOf cap [] = 0 := by
   simp [offOf]
 
@@ -110,5 +121,20 @@ theorem offOf_snoc (cap : Nat) (s : Bytes) (c : UInt8) (h : s.length < cap) :
 theorem offOf_add_sub (cap : Nat) (s x : Bytes) :
     (offOf cap s : Int) + (((offOf cap (s ++ x) : Nat) : Int) - (offOf cap s : Int)) = (offOf cap (s ++ x) : Int) := by
   omega
+
+theorem dropWhile_nil_iff {α : Type} (q : α → Bool) (l : List α) :
+    l.dropWhile q = [] ↔ ∀ x ∈ l, q x = true := by
+  induction l with
+  | nil => simp
+  | cons a l ih => simp only [List.dropWhile_cons]; split <;> simp_all
+
+/-- `len(bytes.TrimRight(s, " ")) == 0`: nothing but blanks -/
+theorem bytesTrimRight_blank (s : Bytes) :
+    ((bytesTrimRight s [32]).length = 0) ↔ s.all (· == 32) = true := by
+  simp only [bytesTrimRight, List.length_reverse, List.length_eq_zero_iff, dropWhile_nil_iff,
+    List.mem_reverse, List.all_eq_true]
+  constructor
+  · intro h x hx; simpa using h x hx
+  · intro h x hx; simpa using h x hx
 
 end Gts.Gen
